@@ -130,6 +130,16 @@ def radical_inverse(i, base):
     return r
 
 
+def radical_inverse_ratio(i, base):
+    """the same number as an exact integer ratio (numerator, denominator): digits of i mirrored at the radix point"""
+    num, den = 0, 1
+    while i > 0:
+        i, d = divmod(i, base)
+        num = num * base + d
+        den *= base
+    return num, den
+
+
 # ---------------------------------------------------------------- indicators (C17)
 
 def gd_reference(reference, computed):
